@@ -155,6 +155,12 @@ func NewUpstream(addr string, opt Opt) (_ Upstream, err error) {
 		opt.EnableHTTP3 = true
 	}
 
+	// A bare ipv6 host (no brackets, no port) is ambiguous for the http stack, which
+	// takes its last group as a port (wrong Host header and TLS server name).
+	if ip, err := netip.ParseAddr(addrURL.Host); err == nil && ip.Is6() {
+		addrURL.Host = "[" + addrURL.Host + "]"
+	}
+
 	// If host is a ipv6 without port, it will be in []. This will cause err when
 	// split and join address and port. Try to remove brackets now.
 	addrUrlHost := tryTrimIpv6Brackets(addrURL.Host)
